@@ -446,12 +446,16 @@ class Function:
         except Exception:
             _LOGGER.error("run_coro: got exception %s", traceback.format_exc(-1))
         finally:
+            cancel_exc = None
             try:
                 if task in cls.task2cb:
                     for callback, info in list(cls.task2cb[task]["cb"].items()):
                         ast_ctx, args, kwargs = info
                         try:
                             await ast_ctx.call_func(callback, None, *args, **kwargs)
+                        except asyncio.CancelledError as e:
+                            # canceled (again) while this callback was running: still call the others
+                            cancel_exc = e
                         except Exception as e:
                             # one failing callback doesn't stop the others
                             ast_ctx.log_exception(e)
@@ -464,6 +468,8 @@ class Function:
                 cls.task2context.pop(task, None)
                 cls.task2cb.pop(task, None)
                 cls.our_tasks.discard(task)
+            if cancel_exc is not None:
+                raise cancel_exc
 
     @classmethod
     def create_task(cls, coro, ast_ctx=None):
